@@ -151,6 +151,22 @@ func genC08(faulty, concurrent bool) func(rng *Rng, sc *Scenario) {
 			}
 			sc.Clients = append(sc.Clients, cl)
 		}
+		if rng.Chance(1, 6) {
+			// a request whose handler takes over the connection, before the others: what it leaves in its pooled context must not matter
+			sc.Handlers["h900"] = []Action{{Op: "hijack"}}
+			sc.Program = append(sc.Program, RegOp{Op: "route", Via: "verb", Methods: []string{"GET"}, Path: "/hj", H: "h900"})
+			sc.Clients[0].Reqs = append([]Req{{Method: "GET", Path: "/hj"}}, sc.Clients[0].Reqs...)
+		}
+		if rng.Chance(1, 6) {
+			// a second rux router mounted below a route of this one
+			sc.Inner = true
+			sc.Handlers["i0"] = append(c08Ops(rng, rng.Intn(4), false), Action{Op: "obs"})
+			sc.Handlers["i1"] = c08Ops(rng, rng.Intn(4), false)
+			sc.Handlers["j0"] = append(append(c08Ops(rng, rng.Intn(2), false), Action{Op: "next"}), c08Ops(rng, rng.Intn(2), false)...)
+			sc.Handlers["h901"] = append(append(c08Ops(rng, rng.Intn(3), false), Action{Op: "mount", S: rng.Pick([]string{"/in/a", "/in/b", "/in/none"})}), c08Ops(rng, rng.Intn(3), false)...)
+			sc.Program = append(sc.Program, RegOp{Op: "route", Via: "verb", Methods: []string{"GET"}, Path: "/mnt", H: "h901"})
+			sc.Clients[len(sc.Clients)-1].Reqs = append(sc.Clients[len(sc.Clients)-1].Reqs, Req{Method: "GET", Path: "/mnt"})
+		}
 		if rng.Chance(1, 5) {
 			// a panic hook: the commit must still be single and carry what the hook set
 			sc.Options.OnPanic = "p0"
@@ -205,8 +221,17 @@ func checkC08(sc *Scenario) *CheckOut {
 		if len(rec.PanicAt) > 0 {
 			out.Faults["handler-panic"]++
 		}
-		// with a panic hook installed the commit model is continued through the hook's operations
-		if v := modelCommit("C08", rec, rq, sc.Options.OnPanic != "", false); v != nil {
+		if rec.Hijacked {
+			out.Faults["hijacked-connection"]++
+			continue // the handler took over the connection: no header commit is expected of the router
+		}
+		mounted := false
+		for _, it := range rec.Trace {
+			mounted = mounted || it.K == "mount"
+		}
+		// with a panic hook installed the commit model is continued through the hook's operations;
+		// a request that went through a mounted router is judged structurally (one WriteHeader, before any body byte)
+		if v := modelCommit("C08", rec, rq, sc.Options.OnPanic != "", mounted); v != nil {
 			out.Viol = append(out.Viol, *v)
 			break
 		}
@@ -227,7 +252,9 @@ func checkC08(sc *Scenario) *CheckOut {
 // modelC08 replays the recorded wrapper-level operations through the model.
 // It returns nil when the underlying call log is exactly what the model
 // expects. Requests in which a handler panicked are not judged here (C09).
-func modelC08(prop string, rec *ReqRec, rq *Req) *Violation { return modelCommit(prop, rec, rq, false, false) }
+func modelC08(prop string, rec *ReqRec, rq *Req) *Violation {
+	return modelCommit(prop, rec, rq, false, false)
+}
 
 // opaque: a built-in fallback handler (whose writes the trace does not show)
 // took part in the request; only the structural part is then judged (exactly
